@@ -30,7 +30,7 @@ def gen_config(rng, tier, profile):
   if profile == 'c17' and rng.random() < 0.3:
     strat = rng.choice(['bucketmax', 'timesorted', 'sorted'])
   s['CACHE_WRITE_STRATEGY'] = strat
-  bounded = rng.random() < {'c10': 1.0, 'c09': 1.0, 'c02': 0.4, 'c17': 0.4}.get(profile, 0.3)
+  bounded = rng.random() < {'c10': 1.0, 'c09': 1.0, 'c02': 0.65, 'c17': 0.4}.get(profile, 0.3)
   if bounded:
     s['MAX_CACHE_SIZE'] = rng.choice([1, 2, 3, 4, 5, 6, 6, 20, 40] if profile == 'c10' else
                                      [1, 2, 3, 4, 5, 6, 8, 20])
@@ -97,14 +97,14 @@ def gen_plan(rng, cfg, tier, profile):
   ops = []
   weights = {
     'send': 10, 'udp': 1, 'sleep': 2, 'query': 0, 'bulk': 0, 'connect': 0, 'disconnect': 0,
-    'schema': 0,
+    'schema': 0, 'clockjump': 0,
   }
   if profile == 'c02':
-    weights.update(query=3, bulk=1)
+    weights.update(query=3, bulk=1, udp=3)      # datagrams keep arriving while receivers are paused
   if profile == 'c09':
     weights.update(connect=2, disconnect=2, udp=2, sleep=3)
   if profile in ('c03', 'c04', 'c20'):
-    weights.update(sleep=3)
+    weights.update(sleep=3, query=1, bulk=1, clockjump=1)
   if profile == 'c19':
     weights.update(schema=2, sleep=4)
   weights['setlag'] = 0
@@ -144,9 +144,11 @@ def gen_plan(rng, cfg, tier, profile):
     elif k == 'sleep':
       ops.append(['sleep', rng.choice([0.0, 0.05, 0.5, 1.0, 1.0, 2.5, 10.0, 61.0])])
     elif k == 'query':
-      ops.append(['query', rng.choice(names)])
+      ops.append(['query', rng.choice(names + ['never.stored'])])
     elif k == 'bulk':
-      ops.append(['bulk', rng.sample(names, rng.randint(1, len(names)))])
+      ops.append(['bulk', rng.sample(names + ['never.stored'], rng.randint(1, len(names)))])
+    elif k == 'clockjump':
+      ops.append(['clockjump', rng.choice([0.001, 0.5, 3.0, 120.0])])
     elif k == 'connect':
       ops.append(['connect', rng.choice(['line', 'line', 'pickle'])])
     elif k == 'disconnect':
@@ -197,6 +199,9 @@ def gen_plan(rng, cfg, tier, profile):
   if profile == 'c09' and rng.random() < 0.7:
     hot = rng.choice([0.2, 0.5, 0.8])
     plan['file_p'] = {'e': hot, 'p': rng.choice([hot, 0.1])}
+  if profile in ('c02', 'c10') and 'hot' not in plan and rng.random() < 0.3:
+    # the unlocked bookkeeping after a drain (size, cacheTooFull) against a concurrent store
+    plan['hot'] = [[r'cacheTooFull|self\.size\b', rng.choice([0.3, 0.6])]]
   if 'hot' not in plan and rng.random() < (0.45 if profile == 'c09' else 0.25):
     # PCT-style schedule: d forced change points, long uninterrupted stretches in
     # between (a whole writer pass inside one window of the other thread)
